@@ -156,6 +156,38 @@ def static_plain_case(R, M, ctor):
                 max_forks_per_site=R + 4)
 
 
+def static_twins_case(R, M, second):
+    """TWO static samplers made from one base sampler (make_static called twice), used alternately: each follows its own
+    state machine -- its point set is kept for exactly its own resample interval of its own uses"""
+    name = "static/twins/second_%s/R%d_M%d" % (second, R, M)
+    pattern = [0, 1, 0, 0, 1, 1, 0, 1, 0, 0, 1, 0, 1, 1, 0, 0][:M]
+
+    def body(env):
+        r1 = env.integer("r1", 1, R)
+        r2 = env.integer("r2", 1, R) if second == "sym" else None
+        inner = _Tagged()
+        a = inner.make_static(r1)
+        b = inner.make_static(r2) if r2 is not None else inner.make_static()
+        tags = [_tag((a, b)[w].sample_points()) for w in pattern]
+        return dict(tags=tags, r=[env.v(r1), _iv(env, r2)], distinct=a is not b, ivs=[a.resample_interval, b.resample_interval])
+
+    def goals(o, L, env):
+        yield "two_wrappers", bool(o["distinct"])
+        for w in (0, 1):
+            own = [tag for tag, who in zip(o["tags"], pattern) if who == w]
+            r = o["r"][w]
+            for t in range(len(own)):
+                for u in range(t + 1, len(own)):
+                    if r is None:
+                        same_block = True
+                    else:
+                        same_block = L.eq(t / r, u / r) if env.symbolic else (t // int(r) == u // int(r))
+                    yield "own_uses_%d_and_%d_of_sampler%d" % (t + 1, u + 1, w), L.If(same_block, L.eq(own[t], own[u]), L.lt(own[t], own[u]))
+
+    return Case(name, body, goals, family="static/twins", params=dict(R=R, M=M, second=second), max_paths=R * R * 4 + 8,
+                max_decisions=6 * M + 16, max_forks_per_site=R + 4)
+
+
 def static_inf_case(M, ctor, explicit):
     name = "static/inf/%s/%s/M%d" % (ctor, "explicit" if explicit else "default", M)
 
@@ -409,6 +441,8 @@ def cases(tier):
         cs.append(static_plain_case(R, M, ctor))
         cs.append(static_inf_case(M, ctor, False))
     cs.append(static_inf_case(M, "make_static", True))
+    cs.append(static_twins_case(min(R, 3), min(M, 10), "sym"))
+    cs.append(static_twins_case(min(R, 3), min(M, 10), "inf"))
     cs.append(static_restatic_case(R, M, "sym", "sym"))
     cs.append(static_restatic_case(R, M, "sym", "inf"))
     cs.append(static_restatic_case(R, M, "inf", "sym"))
